@@ -251,8 +251,17 @@ func (f *fakeCln) request(m jrpc2.Method, resp interface{}) error {
 			}
 			return rpcErr(-1, "Invalid bolt11: "+err.Error(), nil)
 		}
-		return fill(resp, map[string]interface{}{"type": "bolt11 invoice", "valid": true, "currency": "bcrt", "created_at": 1, "expiry": 3600, "payee": b.D, "amount_msat": b.A,
-			"payment_hash": b.H, "description": b.L, "min_final_cltv_expiry": b.C, "payment_secret": strings.Repeat("5e", 32)})
+		dec := map[string]interface{}{"type": "bolt11 invoice", "valid": true, "currency": "bcrt", "created_at": 1, "expiry": 3600, "payee": b.D, "amount_msat": b.A,
+			"payment_hash": b.H, "description": b.L, "min_final_cltv_expiry": b.C, "payment_secret": strings.Repeat("5e", 32)}
+		if len(b.R) > 0 {
+			var routes [][]map[string]interface{}
+			for _, h := range b.R {
+				routes = append(routes, []map[string]interface{}{{"pubkey": h.Pubkey, "short_channel_id": NormScid(h.Scid), "fee_base_msat": 0, "fee_proportional_millionths": 0, "cltv_expiry_delta": h.Delta}})
+			}
+			dec["routes"] = routes
+			w.Probe("ln:invoice-with-route-hints-decoded")
+		}
+		return fill(resp, dec)
 	case "sendpay":
 		var req struct {
 			Route []struct {
@@ -450,6 +459,10 @@ func (f *fakeCln) txprepare(p map[string]json.RawMessage, resp interface{}) erro
 		return rpcErr(301, "Could not afford "+strconv.FormatUint(amount, 10)+"sat using all 1 available UTXOs", nil)
 	}
 	lay := w.Plan.Scn.Layout[n.ID]
+	if lay.FeeMult > 1 && b.Balance >= amount+fee*uint64(lay.FeeMult) {
+		fee *= uint64(lay.FeeMult)
+		w.Probe("layout:expensive-funding")
+	}
 	tx := wire.NewMsgTx(2)
 	in0 := wire.NewTxIn(wire.NewOutPoint(ptrHash(randHash()), 0), nil, nil)
 	in0.Sequence = 0xfffffffd
